@@ -230,8 +230,20 @@ def _priv_apply(ex, F, vals, line):
 _reg(MethodContract("ecdsa.ecdsa.Private_key.__eq__", _priv_cases(), _priv_post, _priv_apply, PROPS))
 
 
-def mk_curve_record(ex, F, name="c1"):
-    return SObj(ex.convert(real("ecdsa.curves").Curve), {"name": name, "curve": mk_curve(ex, F)})
+def mk_curve_record(ex, F, name="c1", generator=None, cfp=None):
+    """a curves.Curve record; two records made with the same arguments are distinct objects of equal value (what an
+    unpickled or deep-copied key holds next to the module-level singleton)"""
+    g = generator if generator is not None else getattr(F, "gen_point", None)
+    if g is None:
+        g = F.gen_point = mk_point(ex, F, 9, "fin", z_one=True)
+    return SObj(ex.convert(real("ecdsa.curves").Curve), {"name": name, "curve": cfp if cfp is not None else mk_curve(ex, F), "generator": g})
+
+
+def curve_records_equal(ex, F, c1, c2):
+    """value equality of curve records: the same field, the same coefficients, the same base point"""
+    if c1 is c2:
+        return True
+    return curves_equal(ex, F, c1.fields["curve"], c2.fields["curve"]) and points_equal(ex, F, c1.fields["generator"], c2.fields["generator"])
 
 
 def mk_vk(ex, F, pk, curve):
@@ -240,19 +252,21 @@ def mk_vk(ex, F, pk, curve):
 
 def _vk_cases():
     out = []
-    for samec in (True, False):
+    for samec in ("same-curve-record", "equal-curve-record", "other-curve"):
         def setup(ex, F, samec=samec):
             c1 = mk_curve_record(ex, F)
-            c2 = c1 if samec else mk_curve_record(ex, F, "c2")
+            c2 = c1 if samec == "same-curve-record" else (mk_curve_record(ex, F, "c2") if samec == "equal-curve-record" else mk_curve_record(ex, F, "c3", cfp=other_curve(ex, F)))
             return {"self": mk_vk(ex, F, mk_pk(ex, F, mk_point(ex, F, 1, "fin")), c1),
                     "other": mk_vk(ex, F, mk_pk(ex, F, mk_point(ex, F, 2, "fin", z_one=True)), c2)}
-        out.append(("same-curve-record" if samec else "other-curve-record", setup))
+        out.append((samec, setup))
     out.append(("foreign", lambda ex, F: {"self": mk_vk(ex, F, mk_pk(ex, F, mk_point(ex, F, 1, "fin")), mk_curve_record(ex, F)), "other": b"x"}))
     return out
 
 
 def _vk_expected(ex, F, a, b):
-    return (a.fields["curve"] is b.fields["curve"]) and _pk_apply(ex, F, {"self": a.fields["pubkey"], "other": b.fields["pubkey"]}, None)
+    # from the property: keys are equal exactly when they denote the same value - same curve (by value: a restored or
+    # copied key holds an equal copy of the curve record) and the same public point
+    return curve_records_equal(ex, F, a.fields["curve"], b.fields["curve"]) and _pk_apply(ex, F, {"self": a.fields["pubkey"], "other": b.fields["pubkey"]}, None)
 
 
 def _vk_post(ex, F, env, out, snap):
@@ -286,14 +300,16 @@ def mk_sk(ex, F, vk, priv):
 def _sk_cases():
     out = []
     for samed in (True, False):
-        def setup(ex, F, samed=samed):
-            c1 = mk_curve_record(ex, F)
-            d1 = ex.fresh_int("d1")
-            d2 = d1 if samed else ex.fresh_int("d2")
-            pk1, pk2 = mk_pk(ex, F, mk_point(ex, F, 1, "fin")), mk_pk(ex, F, mk_point(ex, F, 2, "fin", z_one=True))
-            return {"self": mk_sk(ex, F, mk_vk(ex, F, pk1, c1), mk_priv(ex, F, pk1, d1)),
-                    "other": mk_sk(ex, F, mk_vk(ex, F, pk2, c1), mk_priv(ex, F, pk2, d2))}
-        out.append(("same-d" if samed else "any-d", setup))
+        for samec in (True, False):
+            def setup(ex, F, samed=samed, samec=samec):
+                c1 = mk_curve_record(ex, F)
+                c2 = c1 if samec else mk_curve_record(ex, F, "c2")
+                d1 = ex.fresh_int("d1")
+                d2 = d1 if samed else ex.fresh_int("d2")
+                pk1, pk2 = mk_pk(ex, F, mk_point(ex, F, 1, "fin")), mk_pk(ex, F, mk_point(ex, F, 2, "fin", z_one=True))
+                return {"self": mk_sk(ex, F, mk_vk(ex, F, pk1, c1), mk_priv(ex, F, pk1, d1)),
+                        "other": mk_sk(ex, F, mk_vk(ex, F, pk2, c2), mk_priv(ex, F, pk2, d2))}
+            out.append(("%s,%s" % ("same-d" if samed else "any-d", "same-curve-record" if samec else "equal-curve-record"), setup))
     return out
 
 
@@ -304,7 +320,7 @@ def _sk_post(ex, F, env, out, snap):
     r, a, b = out[1], env["self"], env["other"]
     if isinstance(r, SBool):
         r = ex.branch(r)
-    exp = (a.fields["curve"] is b.fields["curve"]) and _vk_expected(ex, F, a.fields["verifying_key"], b.fields["verifying_key"]) and \
+    exp = curve_records_equal(ex, F, a.fields["curve"], b.fields["curve"]) and _vk_expected(ex, F, a.fields["verifying_key"], b.fields["verifying_key"]) and \
         _pk_apply(ex, F, {"self": a.fields["privkey"].fields["public_key"], "other": b.fields["privkey"].fields["public_key"]}, None) and \
         _same_int(ex, a.fields["privkey"].fields["secret_multiplier"], b.fields["privkey"].fields["secret_multiplier"])
     yield "equal-iff-same-curve-view-and-scalar", isinstance(r, bool) and r == exp, "returned %r, expected %r" % (r, exp)
@@ -383,3 +399,62 @@ def install_mul_effects():
 
 
 install_mul_effects()
+
+
+# ---- curves.Curve.__eq__ (added by the repair of F14): value equality of curve records ---------------------------------
+def _cv_cases():
+    out = []
+    out.append(("same-object", lambda ex, F: (lambda c: {"self": c, "other": c})(mk_curve_record(ex, F))))
+    out.append(("equal-copy", lambda ex, F: {"self": mk_curve_record(ex, F), "other": mk_curve_record(ex, F, "copy")}))
+    out.append(("other-coefficients", lambda ex, F: {"self": mk_curve_record(ex, F), "other": mk_curve_record(ex, F, "c3", cfp=other_curve(ex, F))}))
+    out.append(("other-generator", lambda ex, F: {"self": mk_curve_record(ex, F), "other": mk_curve_record(ex, F, "c4", generator=mk_point(ex, F, 8, "fin"))}))
+    out.append(("foreign", lambda ex, F: {"self": mk_curve_record(ex, F), "other": "NIST256p"}))
+    return out
+
+
+def _cv_post(ex, F, env, out, snap):
+    if out[0] != "ret":
+        yield "no-escape", False, "raised %s at line %s" % (out[1], out[2])
+        return
+    r, a, b = out[1], env["self"], env["other"]
+    if isinstance(r, SBool):
+        r = ex.branch(r)
+    if not _is(b, "Curve"):
+        yield "foreign-type", r is NOTIMPL, "got %r" % (r,)
+        return
+    exp = curve_records_equal(ex, F, a, b)
+    yield "equal-iff-same-parameters-and-base-point", isinstance(r, bool) and r == exp, "returned %r, expected %r" % (r, exp)
+    yield "frame", *frame_ok(env, snap, set())
+
+
+def _cv_apply(ex, F, vals, line):
+    a, b = vals["self"], vals["other"]
+    if not _is(b, "Curve"):
+        return NOTIMPL
+    return curve_records_equal(ex, F, a, b)
+
+
+class CurveEqContract(MethodContract):
+    """applied by contract only on the curve records of this module's field-mode worlds; every other world (scalar mode,
+    coordinate world, ECDH) keeps executing the two-line body, as before the method existed"""
+
+    def apply(self, ex, vals, line):
+        from pyvc.interp import FuncRef
+        a, b = vals["self"], vals["other"]
+        F = getattr(ex, "field", None)
+        if a is b:
+            return True
+        if _is(b, "Curve") and (a.ghost.get("other_named_curve") or b.ghost.get("other_named_curve")):
+            return False                    # a stub standing for a different named curve (contracts/ecdh.py)
+        if F is not None and _is(b, "Curve"):
+            try:
+                if all(isinstance(o.fields["curve"].fields["_CurveFp__a"], FInt) and is_pj(o.fields["generator"]) and
+                       isinstance(o.fields["generator"].fields["_PointJacobi__coords"][0], FInt) for o in (a, b)):
+                    return curve_records_equal(ex, F, a, b)
+            except (KeyError, AttributeError):
+                pass
+        return ex.inline(FuncRef(self.qual), [a, b], {}, line)
+
+
+if "__eq__" in real("ecdsa.curves").Curve.__dict__:
+    _reg(CurveEqContract("ecdsa.curves.Curve.__eq__", _cv_cases(), _cv_post, _cv_apply, PROPS))
